@@ -19,6 +19,10 @@ def run(tier, seed):
                                                    durs=(0, 1, 2, 3, H)),
                  simulate=120 if q else 1500, depth=800,
                  ticks=(1000, 7000, 1000000000) if q else (1000, 7000, 1000000, 1000000000)),
+            # directed heap family: every permutation of six distinct deadlines, delete one, add two, fire all
+            dict(name="C01_heap_perm", consts=ec.consts({11, 12, 13, 14, 15, 16, 17, 18}, {"add", "del", "loop", "flags", "heappat"}, 10,
+                                                        durs=(1, 2, 3, 10, 11, 12, 20, 21), nx=8, maxiter=12),
+                 constraint="GenConstraintHeap"),
             # many plain timers with spread deadlines: removals from the middle of the heap, re-adds (heap shape)
             dict(name="C01_heap", consts=ec.consts({3, 4, 11, 12, 13, 14, 15, 16}, {"add", "del", "rmt", "loop", "adv", "pol"}, 20 if q else 34,
                                                    durs=(1, 2, 3, 10, 11, 12, 20, 21), nx=6, maxiter=8),
